@@ -36,7 +36,7 @@ CHECKS = {
              "verdict a function of the import sets. Every graph is rendered to module texts (canonical and aliased relative spellings) "
              "and loaded by the real module::load with a recording loader: exact call sequences and verdict must match, the compile "
              "order must be one the specification allows. Recorded call sequences of family graphs and of larger random graphs are "
-             "validated as behaviours by LoaderTrace.tla with every invariant checked on every state. Bounded, not a proof. Added since: half of the aliased renderings spread the modules over sub-directories with spellings relative to the importing module.",
+             "validated as behaviours by LoaderTrace.tla with every invariant checked on every state. Bounded, not a proof. Added since: half of the aliased renderings spread the modules over sub-directories with spellings relative to the importing module; a third, colliding rendering of every graph with a missing import puts the importer in lib/ and spells the missing lib/t.oal exactly like the import of the existing t.oal.",
         note="Trusted: TLC, the rendering of graphs to `use` statements, the recording in-memory Loader. Which error is reported when several are present is not compared.",
         technique="TLA+ state machine of module::load (TLC, all import graphs up to 4 modules) + spec->impl replay of every graph + impl->spec trace validation of recorded loader calls",
     ),
@@ -73,7 +73,7 @@ CHECKS = {
              "judged against the declarative definitions IsTiling, OnBoundaries, TokenTexts, Lossless, Hull and SpansInText. Texts: "
              "repository corpus, character- and token-level mutants, arbitrary Unicode strings, rendered token sequences. The "
              "design-level Lossless/Contiguous invariants of the tree-building engine are model-checked by C12 over every token "
-             "sequence of its families. The lexer DFA itself is not modelled (DESIGN.md 1.4). Added since: Lex.tla, a reference lexer (the token patterns of lexer.rs as data, maximal munch, literal before regular expression, a lexical error covers what the automaton consumed before it got stuck, two named deviations of the generated automaton: no way back out of an opened block comment, two-character chunks read atomically); TLC checks Tiles, Genuine, Maximal, ErrorsJustified on every text of up to 4 (quick) / 5 (thorough) characters over six sub-alphabets and the real lexer gives the same tokens and error spans on all of them (637 114 texts in the thorough tier).",
+             "sequence of its families. The lexer DFA itself is not modelled (DESIGN.md 1.4). Added since: Lex.tla, a reference lexer (the token patterns of lexer.rs as data, maximal munch, literal before regular expression, a lexical error covers what the automaton consumed before it got stuck, two named deviations of the generated automaton: no way back out of an opened block comment, two-character chunks read atomically); TLC checks Tiles, Genuine, Maximal, ErrorsJustified on every text of up to 4 (quick) / 5 (thorough) characters over six sub-alphabets and the real lexer gives the same tokens and error spans on all of them (637 114 texts in the thorough tier); a directed family of programs that lex and parse but carry a compile or evaluation diagnostic (invalid YAML in line and inline annotations, unbound names, invalid statuses, missing imports, ...) with 2-4 byte characters inside and before the construct, whose diagnostic spans are judged by the Tiling monitor (a floor on the number of such spans makes a vacuous run a tool error).",
         note="Trusted: TLC, the extraction of observations by the harness (oalv parse/compile). The lexer has a reference specification with exhaustive small-scope conformance; beyond that scope it is observed through the monitor.",
         technique="TLA+ reference lexer with exhaustive small-scope replay on the real lexer + trace validation: observations of real lexer/parser/compiler runs judged by a TLA+ monitor specification (TLC) + design-level tree invariants model-checked in Peg.tla",
     ),
@@ -174,7 +174,7 @@ CHECKS = {
              "the nondeterminism itself. The binding is observational: directed programs that put 2-5 entries into each collection "
              "(examples at three levels, references, ranges, methods, rec in functions, imported modules) and accepted corpus programs "
              "are compiled by 8 (quick) / 48 (thorough) fresh oal-cli processes and three times in one process after unrelated "
-             "compilations; all YAML texts must be byte-identical and examples must appear in source order. Added since: the last three runs of every program see a shifted wall clock (LD_PRELOAD shim driver/faketime.c), repeated in-process compilations run on threads of their own, Determinism.tla carries the ambient state (prior compilations, clock) with AmbientFree and two more pinned self-tests; directed programs are asserted to be accepted (a rejected one is a tool error).",
+             "compilations; all YAML texts must be byte-identical and examples must appear in source order. Added since: the last three runs of every program see a shifted wall clock (LD_PRELOAD shim driver/faketime.c), repeated in-process compilations run on threads of their own, Determinism.tla carries the ambient state (prior compilations, clock) with AmbientFree and two more pinned self-tests; directed programs are asserted to be accepted (a rejected one is a tool error); every program is also compiled from two other working directories (two levels below the sources, their parent) with the main module named by the corresponding relative path, and Determinism.tla has the ambient variable cwd with a pinned cwd-relative self-test.",
         note="Trusted: TLC, the process runner. Hash seeds are observed over N processes, not modelled; the model is small and mainly records which collections must be ordered.",
         technique="TLA+ model of iteration disciplines of the output-path collections (TLC) + multi-process / repeated in-process byte comparison of the real compiler's output",
     ),
